@@ -461,6 +461,10 @@ func (c *Core) localDelivery(bp BundleDescriptor) {
 
 	if err := c.agentManager.Deliver(bp); err != nil {
 		log.WithField("bundle", bp.ID()).WithError(err).Warn("Delivering local bundle errored")
+
+		// Nothing was handed over; keep the bundle for a later retry and do not report a delivery.
+		c.bundleContraindicated(bp)
+		return
 	}
 
 	if bp.MustBundle().PrimaryBlock.BundleControlFlags.Has(bpv7.StatusRequestDelivery) {
